@@ -100,8 +100,9 @@ Proof. exact apply_full_join_sound. Qed.
    call-by-call theorems compose along any program.  The side conditions (`mixprog_ok`) speak about the relation each
    call is applied to: a projection with a preferred engine meets no deduplication on the way (finding F2) and asks for
    no transfer; a transfer (explicit or as an option) does not undo an earlier one, and with an SQL destination is not
-   combined with backtracking through an iteration tree; join operands have columns and are in one engine, or the target
-   is in an iteration engine, no transfer is asked for and the ColumnTag contract holds where the join may be moved. *)
+   combined with backtracking through an iteration tree; join operands are in one engine (nothing else is asked of them:
+   operands without columns, the join identity among them, are in scope), or they have columns, the target is in an
+   iteration engine, no transfer is asked for and the ColumnTag contract holds where the join may be moved. *)
 Theorem C03_programs_over_both_engine_kinds_denote_their_specification : forall env p t,
   mixprog_ok env p -> build_multi p = Ok t ->
   sem_tree env t = spec_mprog env p /\ wf_tree t /\ env_ok env t /\ columns t = mprog_cols p /\ shape_ok env t.
@@ -157,8 +158,6 @@ Proof.
   cbv zeta. split.
   - cbn [mixprog_ok]. repeat split.
     + apply (bool_decide_eq_true_1 _). vm_compute. reflexivity.
-    + apply (bool_decide_eq_true_1 _). vm_compute. reflexivity.
-    + apply (bool_decide_eq_true_1 _). vm_compute. reflexivity.
     + apply rows_domb_spec. vm_compute. reflexivity.
     + apply Z.le_refl.
     + vm_compute. discriminate.
@@ -168,8 +167,46 @@ Proof.
     + vm_compute. discriminate.
     + intros tl tr Hl Hr. vm_compute in Hl, Hr. injection Hl as <-. injection Hr as <-.
       right. split; [reflexivity|]. split; [reflexivity|].
+      split; [apply (bool_decide_eq_true_1 _); vm_compute; reflexivity|].
+      split; [apply (bool_decide_eq_true_1 _); vm_compute; reflexivity|].
       cbn [spine_cons]. repeat split; apply consistentb_spec; vm_compute; reflexivity.
   - vm_compute. exact I.
+Qed.
+
+(* Relation.join of two relations that live in ONE engine (iteration or SQL), with any backtrack/transfer options: the
+   result denotes the natural join under the predicate.  No side condition beyond well-formedness: operands without
+   columns are covered, the join identity among them (the other operand is handed back, under the predicate as a
+   selection unless it is trivially true). *)
+Theorem C03_join_in_one_engine_sound : forall env p f t jb jt t1,
+  wf_tree t -> env_ok env t -> tree_ok env t -> wf_tree f -> env_ok env f -> tree_ok env f ->
+  engine_of f = engine_of t ->
+  apply_full (RJoin (JSpec p ∅ None) f false) t (Opts None jb jt false) = Ok t1 ->
+  sem_tree env t1 = sem_join (natural_common (columns t) (columns f)) p (sem_tree env t) (sem_tree env f) /\
+  columns t1 = columns t ∪ columns f /\ wf_tree t1 /\ env_ok env t1 /\ tree_ok env t1 /\ engine_of t1 = engine_of t.
+Proof. exact apply_full_join_same_engine. Qed.
+
+(* joins inside one engine need nothing of their operands: a filtered SQL table joined, under a predicate, with the
+   engine's join identity (one row, no columns) is in scope; the library hands back the table under both selections *)
+Example C03_identity_join_in_scope :
+  let S := Eng KSql 0 in
+  let a := 2%positive in let b := 4%positive in
+  let env := fun n : positive => if Pos.eqb n 1 then [mkrow [(a, 1); (b, 5)]; mkrow [(a, 0); (b, 7)]]
+                                 else if Pos.eqb n 2 then [∅] else [] in
+  let p := MpJoin (Some (PCmp CGt (ERef a) (ELit 0))) true false
+             (MpUn (Sel (PCmp CGe (ERef b) (ELit 5))) default_opts (MpLeaf 1 S (mkset [a; b]) 0 None))
+             (MpLeaf 2 S ∅ 1 (Some 1%Z)) in
+  mixprog_ok env p /\
+  match build_multi p with Ok (SelM _ _ _ as t) => sem_tree env t = [mkrow [(a, 1); (b, 5)]] | _ => False end.
+Proof.
+  cbv zeta. split.
+  - cbn [mixprog_ok]. repeat split.
+    all: try (apply (bool_decide_eq_true_1 _); vm_compute; reflexivity).
+    all: try (apply rows_domb_spec; vm_compute; reflexivity).
+    all: try (vm_compute; discriminate).
+    all: try (vm_compute; reflexivity).
+    all: try (intros t0 Hb; vm_compute in Hb; injection Hb as <-; reflexivity).
+    all: try (intros tl tr Hl Hr; vm_compute in Hl, Hr; injection Hl as <-; injection Hr as <-; left; reflexivity).
+  - vm_compute. reflexivity.
 Qed.
 
 (* non-vacuity for joins: a join with an operand in engine A is inserted below the transfer that left A, past a
